@@ -52,3 +52,9 @@ package varutil
 //@   loop 1 step v == ".." ==> resultLen == prev(resultLen) - 1
 //@   loop 1 step (v == "" || v == ".") ==> resultLen == prev(resultLen)
 //@   loop 1 step forall(k, 0 <= k && k < prev(resultLen) && k < resultLen ==> resultNodes[k] == prev(resultNodes[k]))
+
+// C18: the heredoc tag has the requested length
+//@ func RandString [C18]
+//@   requires n >= 0 && n <= 1000000
+//@   ensures len(result) == n
+//@   loop 1 invariant len(b) == n && -1 <= i && i < n && 0 <= remain && remain <= 10 && 0 <= cache
